@@ -559,6 +559,10 @@ fn wraparound_histories(ctx: &Ctx) -> Report {
             }
         }
     }
+    // counts that are not next to a power of two: "every thousandth call" thresholds
+    for k in [999usize, 1000, 1001, 4999, 5000, 5001, 9999, 10_000, 10_001, 12_345, 20_000, 50_000, 99_999, 100_000, 100_001] {
+        ks.push(k);
+    }
     if ctx.tier == Tier::Quick {
         // quick: every window, both ends and the centre
         ks.retain(|&k| k < 300 || [0usize, 1, 2, 3].contains(&(((1usize << 16) + 1).wrapping_sub(k) % 7)) || (1usize << 16) / k >= 2);
@@ -612,6 +616,101 @@ fn wraparound_histories(ctx: &Ctx) -> Report {
     });
     r.bound("very_long_histories", json!({"fillers_between_the_two_queries": ks, "query_kinds": "(first, filler, last) in {wmc<Real>, wmc<FF32>, wmc<FF64>, evaluate, count_nodes, wmc<Real> with the second table}", "diagrams": "h = x2 & !x3, f = (x0 & x1) | h, g = x4 | x5 in one 6-variable builder"}));
     r.add_extra("very_long_history_queries", r.transitions);
+    r
+}
+
+/// Large diagrams: a rule-defined pseudo-random function over 12, 13 and 15 variables (a few hundred to several
+/// thousand nodes: list, stack and table thresholds inside the folds are only reached here). For every ordered
+/// pair (q1, q2) of query kinds, q1 then q2 on the one diagram of a fresh builder; q2's answer must equal its
+/// answer as the first query on a fresh builder on a fresh thread, and every node's scratch slot must read as
+/// empty after each call.
+fn large_diagram_pairs(ctx: &Ctx) -> Report {
+    use crate::bigtt::Big;
+    fn pseudo_random(n: usize, seed: u64) -> Big {
+        let mut f = Big::konst(n, false);
+        let mut x = seed.wrapping_mul(0x9E3779B97F4A7C15) | 1;
+        for w in f.w.iter_mut() {
+            x ^= x << 13;
+            x ^= x >> 7;
+            x ^= x << 17;
+            *w = x;
+        }
+        f
+    }
+    fn build<'a>(b: &'a AllBuilder<'a>, f: &Big, v: usize) -> BddPtr<'a> {
+        if f.is_false() {
+            return BddPtr::PtrFalse;
+        }
+        if f.is_true() {
+            return BddPtr::PtrTrue;
+        }
+        let (lo, hi) = (build(b, &f.cofactor(v, false), v + 1), build(b, &f.cofactor(v, true), v + 1));
+        b.ite(b.var(VarLabel::new(v as u64), true), hi, lo)
+    }
+    fn fix(n: usize) -> Fix {
+        let dy = |v: usize, k: usize| 0.25 + 0.125 * ((v + k) % 5) as f64;
+        Fix {
+            n,
+            real: WmcParams::new((0..n).map(|v| (VarLabel::new(v as u64), (RealSemiring(dy(v, 0)), RealSemiring(1.0 - dy(v, 0))))).collect::<HashMap<_, _>>()),
+            real2: WmcParams::new((0..n).map(|v| (VarLabel::new(v as u64), (RealSemiring(dy(v, 2)), RealSemiring(1.0 - dy(v, 2))))).collect::<HashMap<_, _>>()),
+            ff1: WmcParams::new((0..n).map(|v| (VarLabel::new(v as u64), (FiniteField::new(3 + v as u128), FiniteField::new(P1 - 2 - v as u128)))).collect::<HashMap<_, _>>()),
+            ff2: WmcParams::new((0..n).map(|v| (VarLabel::new(v as u64), (FiniteField::new(5 + v as u128), FiniteField::new(P2 - 4 - v as u128)))).collect::<HashMap<_, _>>()),
+            eu: WmcParams::new((0..n).map(|v| (VarLabel::new(v as u64), (ExpectedUtility(0.5, 0.0), ExpectedUtility(0.5, if v >= 2 { (v % 4) as f64 } else { 0.0 })))).collect::<HashMap<_, _>>()),
+        }
+    }
+    // first queries: the optimisation queries, counts, node count, hashes; second queries: counts with the other
+    // table, node count, a modular count, marginal MAP
+    let firsts: Vec<usize> = if ctx.tier == Tier::Quick { vec![8, 9, 10, 12, 0, 5] } else { vec![8, 9, 10, 12, 0, 1, 5, 6, 7] };
+    let seconds: Vec<usize> = if ctx.tier == Tier::Quick { vec![13, 5, 8] } else { vec![13, 5, 2, 8] };
+    let qs: Vec<Q> = (0..13).map(Q::Fixed).chain([Q::Wmc2]).collect();
+    let sizes: Vec<usize> = ctx.tier.pick(vec![13, 15], vec![11, 12, 13, 14, 15, 16]);
+    let mut items: Vec<(usize, u64, usize)> = Vec::new();
+    for &n in sizes.iter() {
+        for seed in 1..=ctx.tier.pick(1u64, 3) {
+            for &q1 in firsts.iter() {
+                items.push((n, seed, q1));
+            }
+        }
+    }
+    let mut r = par_run(ctx, &items, |_, (n, seed, q1)| {
+        let mut rep = Report::default();
+        rep.exhaustive = true;
+        let n = *n;
+        let f = pseudo_random(n, *seed + n as u64);
+        let order: Vec<usize> = (0..n).collect();
+        let fx = fix(n);
+        let case = json!({"kind": "large_diagram", "n": n, "seed": seed, "first": q1});
+        for &q2 in seconds.iter() {
+            let reference = on_fresh_thread(|| {
+                let b = small_builder(&order, 0);
+                let p = build(&b, &f, 0);
+                bdd_query(&b, p, &qs[q2], &fix(n))
+            });
+            let b = small_builder(&order, 0);
+            let p = build(&b, &f, 0);
+            rep.states += 1;
+            rep.traces += 1;
+            rep.max_depth = rep.max_depth.max(p.count_nodes() as u64);
+            let _ = bdd_query(&b, p, &qs[*q1], &fx);
+            rep.transitions += 2;
+            if !all_scratch_clear(&[p]) {
+                rep.violation("purity:scratch-left", format!("pseudo-random function of {} variables ({} nodes): after query kind {} a scratch slot of the diagram reads as occupied", n, p.count_nodes(), q1), case.clone());
+                return rep;
+            }
+            let ans = bdd_query(&b, p, &qs[q2], &fx);
+            if ans != reference {
+                rep.violation("purity:answer-depends-on-history", format!("pseudo-random function of {} variables ({} nodes): query kind {} after query kind {} answers {:?}; as the first query on a fresh builder {:?}", n, p.count_nodes(), q2, q1, ans, reference), case.clone());
+                return rep;
+            }
+            if !all_scratch_clear(&[p]) {
+                rep.violation("purity:scratch-left", format!("pseudo-random function of {} variables ({} nodes): after query kinds {} and {} a scratch slot of the diagram reads as occupied", n, p.count_nodes(), q1, q2), case.clone());
+                return rep;
+            }
+        }
+        rep
+    });
+    r.bound("large_diagrams", json!({"variables": sizes, "function": "xorshift-filled truth table (rule-defined, one per size; three in thorough)", "first_queries": "marginal_map, meu, bb<Real>, bb<EU>, wmc<Real>, wmc<FF32>, count_nodes, semantic_hash, cached_semantic_hash", "second_queries": "wmc<Real> with the second table, count_nodes, wmc<FF64>, marginal_map"}));
+    r.add_extra("large_diagram_query_pairs", r.states);
     r
 }
 
@@ -807,6 +906,13 @@ pub fn run(ctx: &Ctx) -> Report {
     if !disabled("wraparound") {
         rep.merge(wraparound_histories(ctx));
     }
+    if !disabled("largediagrams") {
+        let depth_before = rep.max_depth;
+        let mut l = large_diagram_pairs(ctx);
+        rep.add_extra("largest_diagram_nodes", l.max_depth);
+        l.max_depth = depth_before;
+        rep.merge(l);
+    }
     rep.evaluations = rep.transitions;
     rep.distinct_nontrivial = rep.states;
     rep.max_depth = depth as u64;
@@ -830,6 +936,7 @@ pub fn replay(ctx: &Ctx, case: &Value) -> Report {
         Some("bdd_queries") => explore_bdd_sel(f, g, n, &arr(&case["order"]), depth, case["pool_kind"].as_u64().unwrap_or(0) as u8, &mut rep, case["ops_only"].as_bool().unwrap_or(false)),
         Some("sdd_queries") => explore_sdd(f, g, n, &VT::parse(case["vtree"].as_str().unwrap_or("0")).unwrap_or(VT::Leaf(0)), depth, &mut rep),
         Some("wraparound") => rep.merge(wraparound_histories(ctx)),
+        Some("large_diagram") => rep.merge(large_diagram_pairs(ctx)),
         Some("topdown_long_history") => long_histories_td(f, n, &arr(&case["order"]), &mut rep),
         Some("topdown_queries") => explore_td(f, g, n, &arr(&case["order"]), depth, case["pool_kind"].as_u64().unwrap_or(0) as u8, &mut rep),
         _ => {}
